@@ -4,8 +4,20 @@ from .. import gen, oracles, solved, sysdesc, wire
 CLAIM = True
 MODULE = "SysLoss.Props.C08"
 THEOREMS = ["SysLoss.C08." + t for t in (
-    "rail_row_spec", "rail_complete", "no_rails_empty")]
+    "rail_row_spec", "rail_complete", "no_rails_empty")] + [
+    # Props/C08System: the same on the table the model assembles for a whole well-formed system (who the owner is, who the members are)
+    "SysLoss.C08S." + t for t in (
+    "row_railIn_spec", "row_supplier_spec", "supplier_eq_some_iff", "rail_volt_is_owner_vout", "rail_members_are_children",
+    "rail_curr_is_owner_iout", "owner_iout", "share_supplier", "dead_mux_curr", "rails_partition", "rails_partition_system",
+    "no_rails_same_table", "rail_row_core", "solve_is_assemble", "solve_rail_report", "reachable_rail_report")]
+MODULES = ["SysLoss.Props.C08", "SysLoss.Props.C08System"]
 LEVEL_TEXT = ("Theorems (Lean 4) about the model of rail_rep(): every row belongs to a (phase, named rail) that feeds at least one component in that phase, its current/power/loss are the sums of Iin/Power/Loss over exactly the component rows whose Rail in is that rail, its voltage is their Vin and its warnings are exactly their distinct non-empty warning texts; every such (phase, rail) has a row; without a feeding rail there are no rows. Tied to the code on every run: rail_rep() of random trees with rails, limits, phases and a mux compared with the model's report assembled from the implementation's (v,i), and an oracle that groups the solve() table of the same call by Rail in.")
+LEVEL_TEXT = LEVEL_TEXT + (" Props/C08System closes the gap between 'rows whose Rail in is r' and the property's words, on the table the model assembles for any well-formed system "
+              "(TreeWF, distinct names, unique rails - all proved for every reachable system): a row's Rail in is the rail of its SUPPLIER (its one parent; for a PMux the selected input) and its Vin "
+              "is the supplier's Vout cell (`row_railIn_spec`); a rail row's voltage is the Vout cell of the unique OWNER of the rail (`rail_volt_is_owner_vout`); its members are exactly the nodes "
+              "the owner supplies, a PMux iff the owner is its selected input (`rail_members_are_children`); in exact steady states the rail current equals the owner's Iout cell "
+              "(`rail_curr_is_owner_iout`, full strength); every row with a Rail in is counted in exactly one rail row and the per-phase sums agree (`rails_partition`); without rails every "
+              "Rail in / Rail out is blank and the report is empty (`no_rails_same_table`); `solve_rail_report` / `reachable_rail_report` carry this to what solve() returns and to every edit history.")
 LEVEL_NOTE = ('Genuine defects found by this check and repaired: warning text lost when all members share it (873c44e); IndexError when a rail feeds nothing in one phase (f76c09b). rail_rep() returning None when rails exist but feed nothing is read as the empty listing.')
 RULE = ("random trees with unique rail names on a random subset of the non-load components, parents addressed by rail or by name, "
         "limits planted so that a good share of the rows warn, phases on half, a mux on half; also trees without any rail; "
@@ -29,6 +41,9 @@ def one(ctx, desc, kw=None):
         return err[0] == "build"
     rr, e = sysdesc.quiet_call(sys_.rail_rep, **kw)
     obs = sysdesc.observe(df)
+    if not solved.rows_ok(ctx, desc, obs):
+        ctx.case(nontrivial=False)
+        return False
     solved.shape_stats(ctx, desc)
     has_rails = any(c.get("rail") and c["kind"] not in oracles.LOADS for c in desc["comps"])
     fed = any(r.get("railIn") for p in obs["phases"] for r in p["rows"])
@@ -52,6 +67,11 @@ def one(ctx, desc, kw=None):
             ctx.oracle(desc, "no_rails_same_as_solve", "rail_rep", {}, {"solve_rows": len(df), "rail_rep_rows": None if rr is None else len(rr)})
         return False
     rails = oracles.observe_rails(rr) if rr is not None else []
+    junk = [r for r in rails if r.get("_not_numeric")]
+    if junk:
+        ctx.oracle(desc, "rail_sums", "rail_rep", {"not_numeric": True},
+                   {"phase": junk[0]["phase"], "rail": junk[0].get("rail"), "cells_that_are_not_numbers": junk[0]["_not_numeric"], "solve_kw": kw})
+        return False
     # correspondence: the model's rail report (assembled from the implementation's v,i)
     mr = {(r["phase"], r["rail"]): r for r in model["rails"]}
     gr = {(r["phase"], r["rail"]): r for r in rails}
@@ -79,6 +99,10 @@ def run(ctx):
         kw = {"vtol": 1e-10, "itol": 1e-10} if ctx.rng.random() < 0.6 else {}       # also the default tolerances
         if ctx.rng.random() < 0.5:
             kw["ta"] = float("%.3g" % ctx.rng.uniform(-40, 140))     # peak-temperature limits make the warnings depend on ta
+        if ctx.rng.random() < 0.15:
+            # tags label a sweep; they are documented for solve() and accepted by rail_rep() ("same parameters as solve()").  Whatever a
+            # tag is called - a sweep variable, or by coincidence like a column of the RAIL report - no computed cell may change
+            kw["tags"] = {ctx.rng.choice(["Vbat", "Voltage (V)", "Current (A)", "Rail", "run", "Temp"]): ctx.rng.choice([3.6, 1, "a", 0.0])}
         skipped += bool(one(ctx, gen_fn(ctx.rng), kw))
     if skipped > 0.2 * n:
         raise RuntimeError("too many unbuildable cases")
